@@ -259,6 +259,21 @@ def getCellBase (g : G) (idx : List Int) : Option (List Rat) :=
 def getCellTop (g : G) (idx : List Int) : Option (List Rat) :=
   evaluateMesh g (idx.map (· + 1)) meshBaseBySteps meshBaseByBounds
 
+/-- `ThetaRZGrid.getCoordinates(indices, nativeCoords)`: the mesh coordinates are (θ, r, z); `tau` is
+`math.tau`, `cs` / `sn` stand for cos θ / sin θ of that θ (parameters: the model is exact in them).
+`none` = IndexError, or the "Invalid theta value" ValueError when θ is outside [0, τ]. -/
+def trzGetCoordinates (tau cs sn : Rat) (native : Bool) (g : G) (idx : List Int) : Option (List Rat) :=
+  match getCoordinates g idx with
+  | some [theta, r, z] =>
+    if 0 ≤ theta ∧ theta ≤ tau then
+      (if native then some [theta, r, z] else some [r * cs, r * sn, z])
+    else none
+  | _ => none
+
+/-- `ThetaRZGrid.getRingPos` / `getIndicesFromRingAndPos` -/
+def trzRingPos (i j : Int) : Int × Int := (j + 1, i + 1)
+def trzFromRingPos (ring pos : Int) : Int × Int := (pos - 1, ring - 1)
+
 /-- `getIndexBounds` -/
 def indexBounds (g : G) : List (Int × Int) :=
   List.zipWith (fun (mm : Int × Int) (b : Option (List Rat)) =>
